@@ -34,6 +34,7 @@ def _job_worker(conn, cid, params, tier, seed, concrete, prop=None, sample=0, qu
         if tier == "thorough":
             b = dict(max_paths=400000, timeout_s=1500.0, solver_timeout_ms=60000)
         b.update(ct.budget.get(tier, {}))
+        b["timeout_s"] = b["timeout_s"] * _load_factor()
         if params.get("search_paths"):
             # a shape too large to exhaust: a bounded depth-first search of the first N paths (deterministic order); reaching
             # the bound is not "undecided", the shape simply claims no exhaustiveness (listed under partial_shapes in the evidence)
@@ -50,7 +51,7 @@ def _job_worker(conn, cid, params, tier, seed, concrete, prop=None, sample=0, qu
         if sample:
             from pvc.explore import Sampler
             fails, nrun, nab, err, obl = [], 0, 0, None, {}
-            tlim = 60 if tier == "quick" else 300
+            tlim = (60 if tier == "quick" else 300) * _load_factor()
             for i in range(sample):
                 if time.time() - t0 > tlim:
                     break
@@ -119,6 +120,22 @@ def _merge(a, b):
 def _known_labels(prop, cid):
     return {k.get("label") for k in load_known().get("findings", [])
             if k.get("property") == prop and k.get("contract") == cid and k.get("label")}
+
+
+_LOAD_FACTOR = None
+
+
+def _load_factor():
+    """wall-clock budgets are sized for an otherwise idle 16-core machine: when other work shares the cores (load average
+    above the core count at the start of the run) the time limits are stretched accordingly, so that a verdict does not
+    flip to 'undecided' because of the neighbours; the path budgets (max_paths) are unaffected"""
+    global _LOAD_FACTOR
+    if _LOAD_FACTOR is None:
+        try:
+            _LOAD_FACTOR = min(6.0, max(1.0, os.getloadavg()[0] / float(os.cpu_count() or 16)))
+        except OSError:
+            _LOAD_FACTOR = 1.0
+    return _LOAD_FACTOR
 
 
 def run_jobs(jobs, nproc, hard_timeout):
@@ -279,7 +296,7 @@ def check_property(prop, tier="quick", seed=0, only=None, verbose=False, record_
             for p in shapes_of[c.cid]:
                 jobs.append(dict(cid=c.cid, params=p, tier=tier, seed=seed, prop=prop, sample=nsample * int(p.get("sample_factor", 1))))
     nproc = int(os.environ.get("VERIF_NPROC", "16"))
-    hard = 600 if tier == "quick" else 3600
+    hard = (600 if tier == "quick" else 3600) * _load_factor()
     results = run_jobs(jobs, nproc, hard)
 
     known = load_known()
